@@ -1,6 +1,9 @@
 """
 C03 — attribute sets are validated per declared uses, value constraints and wildcards.
 
+(deepened: concrete catalogue types instead of tables, derived types, group construction — see run_types,
+check_build, witnesses)
+
 Generator: seeded random declaration sets (use x form x fixed/default x global refs x attribute groups x
 type from a small catalogue) x attribute wildcards (namespace constraint x processContents, own and in
 referenced groups) x EVERY subset of an 8-name pool spanning no-namespace / target / declared-foreign /
@@ -28,26 +31,43 @@ from harness.core import Ctx, Driver, VERIF
 
 PROPS = 'XsVerif.Props.C03'
 AUDIT = 'XsVerif.Audit.C03'
-LEAN_TARGETS = ['XsVerif.Props.C03', 'drv_c03']
-LEANCHECK = ['XsVerif.Model.Attributes', 'XsVerif.Lemmas.Attributes', 'XsVerif.Props.C03']
-RULE = ('a case is one (XSD version, declaration set, subset of the 8-name pool with one catalogue value per '
-        'present attribute); each case is decoded under the four (use_defaults, fill_missing) settings; '
-        'non-trivial = at least one of: an error is reported, an attribute is resolved through the wildcard or '
-        'the xsi fallback, a fixed value is compared, a fixed/default value is injected, a prohibited declaration '
-        'is met; distinct by canonical JSON of (version, built group, attributes)')
-TRUSTED = ['simple-type validity and value-space equality are parameters of the theorems (Sem.validT / Sem.valueEq); '
-           'in the correspondence they are a hand-written catalogue of 7 types x <=7 lexical forms whose expected '
-           'Python values are checked against the real decoder by the decoded-data comparison',
+LEAN_TARGETS = ['XsVerif.Props.C03', 'XsVerif.Props.C03Types', 'XsVerif.Props.C03Deriv', 'drv_c03']
+LEANCHECK = ['XsVerif.Model.Attributes', 'XsVerif.Lemmas.Attributes', 'XsVerif.Model.AttrTypes', 'XsVerif.Model.AttrDeriv',
+             'XsVerif.Props.C03', 'XsVerif.Props.C03Types', 'XsVerif.Props.C03Deriv']
+RULE = ('a case is one (XSD version, declaration set [plain type, or the content of an <extension>/<restriction> of a '
+        'generated base type], subset of the 8-name pool with one catalogue value per present attribute); each case is '
+        'decoded under the four (use_defaults, fill_missing) settings; non-trivial = at least one of: an error is '
+        'reported, an attribute is resolved through the wildcard or the xsi fallback, a fixed value is compared, a '
+        'fixed/default value is injected, a prohibited declaration is met; distinct by canonical JSON of (version, built '
+        'group, attributes).  Further cases: every lexical form of the type correspondence (catalogue type x generated '
+        'text) and the witnesses of the _counterexample theorems')
+TRUSTED = ['the simple types are a concrete Lean model for the 9 catalogue types (Model/AttrTypes.lean: int, decimal, '
+           'string, boolean, token, int restricted by maxInclusive, anySimpleType, QName with namespace context, list of '
+           'int) tied to the real type objects by `run_types` (validity, decoded value, the text_decode equality of the '
+           'fixed-value test on generated lexical forms); the QName lexical space is modelled for ASCII names only',
+           'the independent reading of the property (`spec_eval`) uses a hand-written table of lexical forms whose '
+           'validity and values are checked against the real types on every run',
            'XSD parsing of attribute declarations / groups / wildcards is inside the loop: the introspected '
-           'group is compared with the intended one (names, use, fixed, default, type, wildcard set, processContents)']
+           'group is compared with the effective uses read off the AST (names, use, fixed, default, type, wildcard '
+           'set, processContents) and with the group the Lean port of XsdAttributeGroup._parse computes from the parts',
+           'the constraint of a wildcard of the AST is translated to the model notation by `wc_of` (checked against '
+           'the built wildcard of every attribute-group definition)']
 ASSUMPTIONS = ['value constraints of the schema are valid for their type (hypothesis WF of the theorems; a schema '
                'violating it is refused at build time)',
-               'value equality is reflexive on the catalogue (no NaN)',
                'no attribute of the group is declared in the xsi namespace',
                'the name pool does not use ##defined in attribute wildcards (modelled, parameter of the theorems, '
                'not generated)',
-               'ID/IDREF typed attributes, xs:NOTATION, inheritable attributes, default attribute groups and '
-               'attribute sets inherited through type derivation are outside this check']
+               'the order of the entries a group takes from a referenced group or from the base type is not modelled '
+               '(theorem valid_perm: validity does not depend on it; error and decoded lists are compared in order '
+               'against the introspected built group)',
+               'restrictions are generated so that the library accepts them (acceptance is property C14); a refused '
+               'restriction is counted and skipped',
+               'the instance namespace context is fixed for a run (prefixes t, tt, f, u, xsi, xml; no default '
+               'namespace)',
+               'xs:ID typed attributes at validation time (ID tables), xs:NOTATION, inheritable attributes are outside '
+               'this check; the XSD 1.1 default attribute group and the XSD 1.0 one-ID rule are modelled, proved and compared '
+               'with the library at schema-build level only (run_build_extras; no derived types there: the library refuses '
+               'every derived type in a schema with defaultAttributes)']
 
 T, F, U = 'urn:t', 'urn:f', 'urn:u'
 XSI = 'http://www.w3.org/2001/XMLSchema-instance'
@@ -58,6 +78,22 @@ NSMAP = {v: k for k, v in PREFIX.items()}
 PCS = ['strict', 'lax', 'skip']
 
 # ---------------------------------------------------------------- simple-type catalogue (independent of /repo)
+class QV:
+    """a QName value of the independent reading: equality = (namespace name, local part); `text` = what the
+    library reports in decoded data; ns None = not a value (invalid literal: equals nothing)"""
+    def __init__(self, ns: Optional[str], local: str, text: str):
+        self.ns, self.local, self.text = ns, local, text
+
+    def __eq__(self, other: Any) -> bool:
+        return isinstance(other, QV) and self.ns is not None and (self.ns, self.local) == (other.ns, other.local)
+
+    def __hash__(self) -> int:
+        return hash((self.ns, self.local))
+
+    def __repr__(self) -> str:
+        return 'QV(%r,%r,%r)' % (self.ns, self.local, self.text)
+
+
 # (xsd name, [(lexical, valid, python value)])
 CATALOGUE: list[tuple[str, list[tuple[str, bool, Any]]]] = [
     ('xs:int', [('3', True, 3), ('03', True, 3), (' 3 ', True, 3), ('4', True, 4), ('x', False, None),
@@ -76,10 +112,22 @@ CATALOGUE: list[tuple[str, list[tuple[str, bool, Any]]]] = [
                  ('4', True, 4)]),                                   # xs:int, maxInclusive 5
     ('xs:anySimpleType', [('true', True, 'true'), ('false', True, 'false'), ('1', True, '1'), ('x', True, 'x'),
                           ('3', True, '3'), ('5', True, '5'), ('', True, '')]),
+    # xs:QName: validity needs the namespace context of the instance (prefixes t, tt, f, u are bound, zz is not);
+    # the value is (namespace name, local part): t:x and tt:x are the same value.  The library hands the
+    # original text to the converter once the prefix is resolved, the collapsed text otherwise.
+    ('xs:QName', [('t:x', True, QV(T, 'x', 't:x')), ('tt:x', True, QV(T, 'x', 'tt:x')), (' t:x ', True, QV(T, 'x', ' t:x ')),
+                  ('f:x', True, QV(F, 'x', 'f:x')), ('t:y', True, QV(T, 'y', 't:y')), ('x', True, QV('', 'x', 'x')),
+                  (' x', True, QV('', 'x', 'x')), ('zz:x', False, QV(None, 'x', 'zz:x')), ('1x', False, QV(None, '1x', '1x')),
+                  ('3', False, QV(None, '3', '3')), ('5', False, QV(None, '5', '5')), ('t:', False, QV(None, '', 't:'))]),
+    # t:ints = list of xs:int
+    ('t:ints', [('1 2', True, [1, 2]), (' 01  2 ', True, [1, 2]), ('', True, []), ('3', True, [3]), ('5', True, [5]),
+                ('1 x', False, [1, None]), ('x', False, [None]), ('2 1', True, [2, 1]), ('1\t2', True, [1, 2])]),
 ]
 TY = {name: i for i, (name, _) in enumerate(CATALOGUE)}
 TYPE_QNAME = {'{%s}int' % XSD: 0, '{%s}decimal' % XSD: 1, '{%s}string' % XSD: 2, '{%s}boolean' % XSD: 3,
-              '{%s}token' % XSD: 4, '{%s}small' % T: 5, '{%s}anySimpleType' % XSD: 6}
+              '{%s}token' % XSD: 4, '{%s}small' % T: 5, '{%s}anySimpleType' % XSD: 6, '{%s}QName' % XSD: 7,
+              '{%s}ints' % T: 8}
+TY_QNAME, TY_INTS = 7, 8
 LEX = [{lex: (ok, val) for lex, ok, val in entries} for _, entries in CATALOGUE]
 
 
@@ -89,34 +137,17 @@ def valid(ty: int, lex: str) -> bool:
 
 def pyvalue(ty: int, lex: str) -> Any:
     """decoded value in lax mode: a facet-invalid lexical form still decodes; an undecodable one gives None"""
-    return LEX[ty][lex][1]
+    v = LEX[ty][lex][1]
+    return v.text if isinstance(v, QV) else v
 
 
 def value_eq(ty: int, a: str, b: str) -> bool:
     """value-space equality of two lexical forms (decoded values; undecodable forms equal nothing)."""
     va, vb = LEX[ty][a][1], LEX[ty][b][1]
+    if isinstance(va, list) and isinstance(vb, list):
+        return None not in va and None not in vb and va == vb
     return va is not None and vb is not None and type(va) is type(vb) and va == vb
 
-
-def sem_tables() -> tuple[list, list]:
-    validt, cls = [], []
-    for ty, (_, entries) in enumerate(CATALOGUE):
-        classes: list[Any] = []
-        for lex, ok, val in entries:
-            if ok:
-                validt.append([ty, lex])
-            if val is not None:
-                for k, c in enumerate(classes):
-                    if type(c) is type(val) and c == val:
-                        cls.append([ty, lex, k])
-                        break
-                else:
-                    classes.append(val)
-                    cls.append([ty, lex, len(classes) - 1])
-    return validt, cls
-
-
-VALID_TABLE, CLS_TABLE = sem_tables()
 
 # ---------------------------------------------------------------- fixed parts of the schemas
 FOREIGN_XSD = f'''<xs:schema xmlns:xs="{XSD}" targetNamespace="{F}" xmlns:f="{F}">
@@ -176,7 +207,109 @@ DECLARABLE = [('', 'a'), ('', 'b'), (T, 'q'), (T, 'ga'), (F, 'g')]
 PLACES = ['own', 'AG1', 'AG2']
 
 
-def gen_set(rng, v11: bool) -> dict:
+TYPE_BAG = [0, 1, 2, 3, 4, 5, 0, 1, 3, 4, 7, 8]
+
+
+def gen_decl(rng, v11: bool, name: tuple, afd: str, ga_vc: Any, places: list) -> dict:
+    use = rng.choice(['optional', 'optional', 'required', 'prohibited'])
+    place = rng.choice(places)
+    ref = name in ((T, 'ga'), (F, 'g'))
+    ty = 0 if ref else rng.choice(TYPE_BAG)
+    d: dict = {'name': list(name), 'use': use, 'place': place, 'ref': ref, 'ty': ty, 'fixed': None,
+               'default': None}
+    # value constraints are written in the schema document: no tab (the XML parser would normalise it)
+    lexs = [lex for lex, ok, _ in CATALOGUE[ty][1] if ok and '\t' not in lex]
+    inherited = ga_vc if name == (T, 'ga') else None
+    r = rng.random()
+    if inherited and inherited[0] == 'fixed':
+        # a reference may repeat the fixed value of the global declaration (same lexical form only)
+        d['fixed'] = inherited[1]
+        d['fixed_explicit'] = r < 0.3 and not (use == 'prohibited' and v11)
+    elif r < 0.35 and not (use == 'prohibited' and v11):
+        d['fixed'] = rng.choice(lexs)
+        d['fixed_explicit'] = True
+    elif r < 0.6 and use == 'optional':
+        d['default'] = rng.choice(lexs)
+        d['default_explicit'] = True
+    elif inherited and inherited[0] == 'default' and use == 'optional':
+        d['default'] = inherited[1]
+        d['default_explicit'] = False
+    # an inherited default on a non-optional reference: the library keeps it (not an error for a ref
+    # without its own default attribute); record what the reference inherits
+    if inherited and inherited[0] == 'default' and d['default'] is None and d['fixed'] is None:
+        d['default'] = inherited[1]
+        d['default_explicit'] = False
+    # form: how the (un)qualified name is obtained
+    if not ref:
+        want_q = name[0] == T
+        if want_q != (afd == 'qualified'):
+            d['form'] = 'qualified' if want_q else 'unqualified'
+        else:
+            d['form'] = rng.choice([None, 'qualified' if want_q else 'unqualified'])
+    return d
+
+
+PC_RANK = {'skip': 0, 'lax': 1, 'strict': 2}
+ANY_C = {'ns': 'any', 'notNs': [], 'notQ': []}
+
+
+def gen_base(rng, v11: bool, s: dict) -> Optional[dict]:
+    """a base complex type for the declaration set `s` (which becomes the content of an <extension> or a
+    <restriction>).  extension: the base declares other names; restriction: the base declares every name the
+    derived type declares, with a use / fixed value the derived declaration restricts, and a wildcard that the
+    derived complete wildcard restricts."""
+    r = rng.random()
+    if r < 0.45:
+        return None
+    deriv = 'extension' if r < 0.75 else 'restriction'
+    mine = {tuple(d['name']): d for d in s['decls'] if d['place'] == 'own' or
+            (d['place'] in s['refs'] and d['use'] != 'prohibited')}
+    mentioned = {tuple(d['name']) for d in s['decls']}
+    decls = []
+    for name in DECLARABLE:
+        if deriv == 'extension':
+            if name in mentioned or rng.random() < 0.5:
+                continue
+            d = gen_decl(rng, v11, name, s['afd'], s['ga'], ['base'])
+        elif name in mine:
+            dd = mine[name]
+            d = json.loads(json.dumps(dd))
+            d['place'] = 'base'
+            d['use'] = {'optional': 'optional', 'required': rng.choice(['optional', 'required']),
+                        'prohibited': rng.choice(['optional', 'prohibited'])}[dd['use']]
+            if d['fixed'] is not None and d.get('fixed_explicit') and rng.random() < 0.5:
+                d['fixed'] = None                      # the restriction adds the fixed value
+                d['fixed_explicit'] = False
+                if name == (T, 'ga') and s['ga'] and s['ga'][0] == 'fixed':
+                    d['fixed'] = s['ga'][1]
+                elif name == (T, 'ga') and s['ga'] and s['ga'][0] == 'default':
+                    d['default'] = s['ga'][1]          # the reference inherits the default of the global
+                    d['default_explicit'] = False
+            if d['use'] != 'optional' and d.get('default_explicit'):
+                d['default'] = None
+                d['default_explicit'] = False
+            if v11 and d['use'] == 'prohibited' and d.get('fixed_explicit'):
+                d['use'] = 'optional'
+        else:
+            if name in mentioned or rng.random() < 0.5:
+                continue
+            d = gen_decl(rng, v11, name, s['afd'], s['ga'], ['base'])
+        decls.append(d)
+    cs = wildcard_constraints(v11)
+    wild = None
+    own_pcs = [s['wilds'][g]['pc'] for g in (['own'] if 'own' in s['wilds'] else []) +
+               [g for g in s['refs'] if g in s['wilds']]]
+    if deriv == 'extension':
+        if rng.random() < 0.55:
+            wild = {'c': rng.choice(cs), 'pc': rng.choice(PCS)}
+    elif own_pcs:
+        wild = {'c': dict(ANY_C), 'pc': rng.choice([p for p in PCS if PC_RANK[p] <= PC_RANK[own_pcs[0]]])}
+    elif rng.random() < 0.6:
+        wild = {'c': rng.choice(cs), 'pc': rng.choice(PCS)}
+    return {'deriv': deriv, 'decls': decls, 'wild': wild}
+
+
+def gen_set(rng, v11: bool, derived: bool = True) -> dict:
     """Intended AST of one declaration set."""
     afd = rng.choice(['unqualified', 'unqualified', 'qualified'])
     ga_vc = rng.choice([None, None, ('fixed', '3'), ('default', '4')])
@@ -184,41 +317,7 @@ def gen_set(rng, v11: bool) -> dict:
     for name in DECLARABLE:
         if rng.random() < 0.3:
             continue
-        use = rng.choice(['optional', 'optional', 'required', 'prohibited'])
-        place = rng.choice(['own', 'own', 'AG1', 'AG2'])
-        ref = name in ((T, 'ga'), (F, 'g'))
-        ty = 0 if ref else rng.randrange(6)
-        d: dict = {'name': list(name), 'use': use, 'place': place, 'ref': ref, 'ty': ty, 'fixed': None,
-                   'default': None}
-        lexs = [lex for lex, ok, _ in CATALOGUE[ty][1] if ok]
-        inherited = ga_vc if name == (T, 'ga') else None
-        r = rng.random()
-        if inherited and inherited[0] == 'fixed':
-            # a reference may repeat the fixed value of the global declaration (same lexical form only)
-            d['fixed'] = inherited[1]
-            d['fixed_explicit'] = r < 0.3 and not (use == 'prohibited' and v11)
-        elif r < 0.35 and not (use == 'prohibited' and v11):
-            d['fixed'] = rng.choice(lexs)
-            d['fixed_explicit'] = True
-        elif r < 0.6 and use == 'optional':
-            d['default'] = rng.choice(lexs)
-            d['default_explicit'] = True
-        elif inherited and inherited[0] == 'default' and use == 'optional':
-            d['default'] = inherited[1]
-            d['default_explicit'] = False
-        # an inherited default on a non-optional reference: the library keeps it (not an error for a ref
-        # without its own default attribute); record what the reference inherits
-        if inherited and inherited[0] == 'default' and d['default'] is None and d['fixed'] is None:
-            d['default'] = inherited[1]
-            d['default_explicit'] = False
-        # form: how the (un)qualified name is obtained
-        if not ref:
-            want_q = name[0] == T
-            if want_q != (afd == 'qualified'):
-                d['form'] = 'qualified' if want_q else 'unqualified'
-            else:
-                d['form'] = rng.choice([None, 'qualified' if want_q else 'unqualified'])
-        decls.append(d)
+        decls.append(gen_decl(rng, v11, name, afd, ga_vc, ['own', 'own', 'AG1', 'AG2']))
     wilds = {}
     cs = wildcard_constraints(v11)
     for place, p in (('own', 0.6), ('AG1', 0.35), ('AG2', 0.3)):
@@ -226,8 +325,11 @@ def gen_set(rng, v11: bool) -> dict:
             wilds[place] = {'c': rng.choice(cs), 'pc': rng.choice(PCS)}
     refs = [g for g in ('AG1', 'AG2') if any(d['place'] == g for d in decls) or g in wilds or rng.random() < 0.2]
     rng.shuffle(refs)
-    return {'afd': afd, 'ga': ga_vc, 'decls': decls, 'wilds': wilds, 'refs': refs,
-            'pool5': rng.choice(['z', 'h']), 'pool7': rng.choice(['nil', 'nil', 'foo'])}
+    s = {'afd': afd, 'ga': ga_vc, 'decls': decls, 'wilds': wilds, 'refs': refs,
+         'pool5': rng.choice(['z', 'h']), 'pool7': rng.choice(['nil', 'nil', 'foo']), 'base': None}
+    if derived:
+        s['base'] = gen_base(rng, v11, s)
+    return s
 
 
 def xsd_decl(d: dict) -> str:
@@ -257,6 +359,7 @@ def xsd_text(s: dict) -> str:
            f'<xs:import namespace="{F}" schemaLocation="f.xsd"/>',
            '<xs:simpleType name="small"><xs:restriction base="xs:int"><xs:maxInclusive value="5"/>'
            '</xs:restriction></xs:simpleType>',
+           '<xs:simpleType name="ints"><xs:list itemType="xs:int"/></xs:simpleType>',
            f'<xs:attribute name="ga" type="xs:int"{ga}/>']
     for g in ('AG1', 'AG2'):
         out.append(f'<xs:attributeGroup name="{g}">')
@@ -264,7 +367,18 @@ def xsd_text(s: dict) -> str:
         if g in s['wilds']:
             out.append(xsd_wild(s['wilds'][g]['c'], s['wilds'][g]['pc']))
         out.append('</xs:attributeGroup>')
-    out.append('<xs:element name="e" nillable="true"><xs:complexType>')
+    base = s.get('base')
+    if base:
+        out.append('<xs:complexType name="B">')
+        out += [xsd_decl(d) for d in base['decls']]
+        if base['wild']:
+            out.append(xsd_wild(base['wild']['c'], base['wild']['pc']))
+        out.append('</xs:complexType>')
+        out.append('<xs:element name="eb" type="t:B"/>')
+        out.append(f'<xs:element name="e" nillable="true"><xs:complexType><xs:complexContent>'
+                   f'<xs:{base["deriv"]} base="t:B">')
+    else:
+        out.append('<xs:element name="e" nillable="true"><xs:complexType>')
     own = [xsd_decl(d) for d in s['decls'] if d['place'] == 'own']
     grefs = [f'<xs:attributeGroup ref="t:{g}"/>' for g in s['refs']]
     # interleave own declarations and group references deterministically
@@ -272,7 +386,10 @@ def xsd_text(s: dict) -> str:
     out += own[:k] + grefs + own[k:]
     if 'own' in s['wilds']:
         out.append(xsd_wild(s['wilds']['own']['c'], s['wilds']['own']['pc']))
-    out.append('</xs:complexType></xs:element>')
+    if base:
+        out.append(f'</xs:{base["deriv"]}></xs:complexContent></xs:complexType></xs:element>')
+    else:
+        out.append('</xs:complexType></xs:element>')
     # each attribute group also used alone by another element: combining it with other wildcards in `e` must not
     # change what those elements admit (the groups are shared components)
     for g in ('AG1', 'AG2'):
@@ -281,11 +398,21 @@ def xsd_text(s: dict) -> str:
     return '\n'.join(out)
 
 
+EMPTY_C = {'ns': [], 'notNs': [], 'notQ': []}
+
+
 def intended(s: dict) -> dict:
-    """The attribute uses and the complete wildcard the XSD text of `s` denotes (XSD structures §3.4.2,
-    §3.6.2): prohibited uses denote nothing (they are kept separately only to know which names were
-    mentioned); the complete wildcard has the intersection of all namespace constraints and the
-    processContents of the local wildcard, else of the first referenced group that has one."""
+    """The attribute uses and the complete wildcard the XSD text of `s` denotes (XSD structures 3.4.2,
+    3.6.2): prohibited uses denote nothing (they are kept separately only to know which names were
+    mentioned); the complete wildcard of the declarations has the intersection of all namespace constraints
+    and the processContents of the local wildcard, else of the first referenced group that has one.
+    Derived types: the effective uses are those of the base type overridden by the declared ones (a declared
+    prohibited use removes the base use); an extension admits what its complete wildcard OR the base wildcard
+    admits (processContents of its own wildcard when it has one, else of the base); a restriction has the
+    declared wildcard only (when it declares none and the base has one, the library keeps a wildcard that
+    admits no namespace, with the base processContents).
+    wild = {'alts': [[c, ...], ...], 'pc': ...}: a name is admitted iff for SOME alternative ALL its constraints
+    admit it."""
     uses, prohibited = {}, []
     for d in s['decls']:
         if d['place'] != 'own' and d['place'] not in s['refs']:
@@ -307,12 +434,38 @@ def intended(s: dict) -> dict:
         pc = s['wilds']['own']['pc']
     else:
         pc = pc_first_group
-    wild = {'cs': cs, 'pc': pc, 'pc_first_group': pc_first_group} if cs else None
+    wild = {'alts': [cs], 'pc': pc} if cs else None
+    base = s.get('base')
+    if base:
+        buses, bproh = {}, []
+        for d in base['decls']:
+            key = tuple(d['name'])
+            if d['use'] == 'prohibited':
+                bproh.append(key)
+            else:
+                buses[key] = {'use': d['use'], 'fixed': d['fixed'], 'default': d['default'], 'ty': d['ty']}
+        for key, u in buses.items():
+            if key not in uses and key not in prohibited:
+                uses[key] = u
+        prohibited = prohibited + [k for k in bproh if k not in uses and k not in prohibited]
+        bw = base['wild']
+        if base['deriv'] == 'extension':
+            if wild and bw:
+                wild = {'alts': wild['alts'] + [[bw['c']]], 'pc': wild['pc']}
+            elif bw:
+                wild = {'alts': [[bw['c']]], 'pc': bw['pc']}
+        elif wild is None and bw:
+            wild = {'alts': [[dict(EMPTY_C)]], 'pc': bw['pc']}
     globs = dict(FOREIGN_GLOBALS)
     globs.update(XSI_GLOBALS)
     globs[(T, 'ga')] = (0, s['ga'][1] if s['ga'] and s['ga'][0] == 'fixed' else None,
                         s['ga'][1] if s['ga'] and s['ga'][0] == 'default' else None)
     return {'uses': uses, 'prohibited': prohibited, 'wild': wild, 'globals': globs}
+
+
+def wild_admits(wild: dict, n: tuple, f: Any = None) -> bool:
+    f = f or admits
+    return any(all(f(c, n) for c in cs) for cs in wild['alts'])
 
 
 def pool(s: dict) -> list[tuple[str, str]]:
@@ -330,35 +483,45 @@ def admits(c: dict, q: tuple) -> bool:
     return q[0] == XSI or den_q(c, q)
 
 
-def spec_eval(it: dict, attrs: list, ud: bool, fm: bool, pc_override: Optional[str] = None,
-              prohibited_live: Optional[dict] = None) -> dict:
+def coll(text: str) -> str:
+    return ' '.join(x for x in re.split('[ \\t\\n\\r]+', text) if x)
+
+
+def spec_eval(it: dict, attrs: list, ud: bool, fm: bool, qname_lexical: bool = False) -> dict:
     """Verdict and decoded data the property demands, from the intended declarations.
-    `pc_override` / `prohibited_live` are used ONLY to characterise the two known findings."""
+    `qname_lexical` is used ONLY to characterise the known finding C03-F3 (the fixed value of an xs:QName
+    attribute compared as collapsed text instead of as (namespace name, local part))."""
     uses = dict(it['uses'])
-    if prohibited_live:
-        uses.update(prohibited_live)
     wild, globs = it['wild'], it['globals']
     present = {tuple(n) for n, _ in attrs}
     ok = all(n in present for n, u in uses.items() if u['use'] == 'required')
     out: dict = {}          # present attributes that are processed: name -> python value
     skipped = set()         # present attributes admitted by a skip wildcard: not reported
+
+    def fixed_ok(ty: int, v: str, fx: Optional[str]) -> bool:
+        if fx is None:
+            return True
+        if qname_lexical and ty == TY_QNAME:
+            return coll(v) == coll(fx)
+        return value_eq(ty, v, fx)
+
     for n, v in attrs:
         n = tuple(n)
         if n in uses:
             u = uses[n]
-            ok = ok and valid(u['ty'], v) and (u['fixed'] is None or value_eq(u['ty'], v, u['fixed']))
+            ok = ok and valid(u['ty'], v) and fixed_ok(u['ty'], v, u['fixed'])
             out[n] = pyvalue(u['ty'], v)
         elif n[0] == XSI and n in globs:
             ty, fx, _ = globs[n]
-            ok = ok and valid(ty, v) and (fx is None or value_eq(ty, v, fx))
+            ok = ok and valid(ty, v) and fixed_ok(ty, v, fx)
             out[n] = pyvalue(ty, v)
-        elif wild is not None and all(admits(c, n) for c in wild['cs']):
-            pc = pc_override or wild['pc']
+        elif wild is not None and wild_admits(wild, n):
+            pc = wild['pc']
             if pc == 'skip':
                 skipped.add(n)
             elif n in globs and n[0] in LOADED:
                 ty, fx, _ = globs[n]
-                ok = ok and valid(ty, v) and (fx is None or value_eq(ty, v, fx))
+                ok = ok and valid(ty, v) and fixed_ok(ty, v, fx)
                 out[n] = pyvalue(ty, v)
             else:
                 if pc == 'strict':
@@ -446,47 +609,136 @@ def get_ns(name: str) -> str:
     return name[1:].split('}')[0] if name[:1] == '{' else ''
 
 
-def check_glue(ctx: Ctx, b: Built, it: dict, g: dict, case0: dict) -> Optional[str]:
-    """intended vs built group.  Returns the id of a known finding that explains a difference, or None."""
+def eff(x: dict) -> tuple:
+    """the effective value constraint of an attribute use: a fixed value overrides an inherited default"""
+    return (x['use'], x['fixed'], None if x['fixed'] is not None else x['default'], x['ty'])
+
+
+def check_glue(ctx: Ctx, b: Built, it: dict, g: dict, case0: dict) -> None:
+    """intended (effective uses and wildcard read off the AST) vs built group."""
     built_uses = {tuple(d['n']): d for d in g['decls'] if d['use'] != 'prohibited'}
     built_proh = {tuple(d['n']) for d in g['decls'] if d['use'] == 'prohibited'}
     want = it['uses']
-    known = None
     if set(built_uses) != set(want) or built_proh != set(it['prohibited']):
-        ctx.failure('built attribute uses differ from the declared ones', case0,
-                    {'built': sorted(built_uses), 'declared': sorted(want), 'built_prohibited': sorted(built_proh)})
-        return None
+        ctx.failure('built attribute uses differ from the effective declared ones', case0,
+                    {'built': sorted(built_uses), 'declared': sorted(want), 'built_prohibited': sorted(built_proh),
+                     'declared_prohibited': sorted(it['prohibited'])})
+        return
     for n, u in want.items():
         d = built_uses[n]
-        # the effective value constraint: a fixed value overrides an inherited default
-        eff = lambda x: (x['use'], x['fixed'], None if x['fixed'] is not None else x['default'], x['ty'])  # noqa: E731
         if eff(d) != eff(u):
             ctx.failure('built attribute use differs from its declaration', case0, {'built': d, 'declared': u})
     w = b.group._attribute_group.get(None)
     if (w is None) != (it['wild'] is None):
         ctx.failure('attribute wildcard lost or invented by schema construction', case0)
-        return None
+        return
     if w is not None:
         for q in pool(b.s) + [(U, 'y'), (T, 'zz'), ('', 'zz')]:
             if q[0] == XSI:
                 continue
             name = '{%s}%s' % q if q[0] else q[1]
-            wantm = all(den_q(c, q) for c in it['wild']['cs'])
+            wantm = wild_admits(it['wild'], q, den_q)
             if bool(w.is_matching(name)) != wantm:
-                ctx.failure('complete attribute wildcard is not the intersection of the declared wildcards',
+                ctx.failure('the attribute wildcard of the type does not admit exactly the names its declared '
+                            'wildcards (intersection; union with the base for an extension) admit',
                             case0, {'name': q, 'is_matching': bool(w.is_matching(name)), 'expected': wantm})
                 break
         if w.process_contents != it['wild']['pc']:
-            detail = {'built_processContents': w.process_contents, 'declared_local': it['wild']['pc'],
-                      'first_group': it['wild']['pc_first_group']}
-            fid = known_match(case0, {'glue': detail})
-            if fid:
-                ctx.known_hit(fid)
-                known = fid
-            else:
-                ctx.failure('complete attribute wildcard does not take the processContents of the local '
-                            'wildcard', case0, detail)
-    return known
+            ctx.failure('the attribute wildcard of the type does not take the processContents of the local '
+                        'wildcard (else of the first referenced group / of the base type)', case0,
+                        {'built_processContents': w.process_contents, 'declared': it['wild']['pc']})
+
+
+# ---- model (Model/AttrDeriv.lean) vs built group
+def wc_of(c: dict) -> dict:
+    """the wildcard a constraint of the AST parses to (driver notation); checked against the built wildcard of
+    every attribute group used alone"""
+    return {'ns': c['ns'] if isinstance(c['ns'], str) else sorted(c['ns']), 'notNs': sorted(c['notNs']),
+            'notQ': sorted([list(q) for q in c['notQ']]), 'nd': False, 'nsib': False, 'tns': T}
+
+
+def ast_decl(d: dict) -> dict:
+    return {'n': list(d['name']), 'use': d['use'], 'fixed': d['fixed'],
+            'default': None if d['fixed'] is not None else d['default'], 'ty': d['ty'], 'same': False}
+
+
+def any_of(w: Optional[dict]) -> Optional[dict]:
+    return None if w is None else {'wc': wc_of(w['c']), 'pc': w['pc']}
+
+
+def group_canon(decls: list, anyw: Optional[dict]) -> dict:
+    from harness.props.c16 import canon
+    return {'decls': {'{%s}%s' % tuple(d['n']): list(eff({'use': d['use'], 'fixed': d['fixed'],
+                                                          'default': d['default'], 'ty': d['ty']}))
+                      for d in decls},
+            'any': None if anyw is None else {'wc': canon(anyw['wc']), 'pc': anyw['pc']}}
+
+
+def built_group_json(group: Any) -> Optional[dict]:
+    decls, anyw = [], None
+    for k, a in group._attribute_group.items():
+        if k is None:
+            anyw = intro_wild(a)
+            if anyw is None:
+                return None
+        else:
+            d = intro_decl(a)
+            if d is None:
+                return None
+            decls.append(d)
+    return {'decls': decls, 'any': anyw}
+
+
+def check_build(ctx: Ctx, drv: Driver, b: Built, case0: dict, f4: Optional[str]) -> None:
+    """The attribute groups computed by the Lean port of XsdAttributeGroup._parse from the parts
+    (declarations of the AST in document order, built referenced groups, built base group) against the groups
+    the library built: the two named attribute groups and the (derived) type of `e`."""
+    s, v11 = b.s, b.v11
+    reqs, built, labels = [], [], []
+    groups = {}
+    for gname in ('AG1', 'AG2'):
+        grp = b.schema.maps.attribute_groups['{%s}%s' % (T, gname)]
+        groups[gname] = built_group_json(grp)
+        content = {'children': [{'attr': ast_decl(d)} for d in s['decls'] if d['place'] == gname],
+                   'any': any_of(s['wilds'].get(gname)), 'inGroupDef': True}
+        reqs.append({'op': 'build', 'v11': v11, 'oldPc': False, 'content': content, 'deriv': 'none', 'base': None,
+                     'defaults': None, 'ids': []})
+        built.append(groups[gname])
+        labels.append(gname)
+    if any(v is None for v in groups.values()):
+        ctx.failure('a built attribute group cannot be expressed in the model', case0)
+        return
+    own = [{'attr': ast_decl(d)} for d in s['decls'] if d['place'] == 'own']
+    k = len(own) // 2
+    children = own[:k] + [{'group': groups[g]} for g in s['refs']] + own[k:]
+    base = s.get('base')
+    bg = None
+    if base:
+        bg = built_group_json(b.schema.maps.types['{%s}B' % T].attributes)
+        content_b = {'children': [{'attr': ast_decl(d)} for d in base['decls']], 'any': any_of(base['wild']),
+                     'inGroupDef': False}
+        reqs.append({'op': 'build', 'v11': v11, 'oldPc': False, 'content': content_b, 'deriv': 'none',
+                     'base': None, 'defaults': None, 'ids': []})
+        built.append(bg)
+        labels.append('base type')
+    reqs.append({'op': 'build', 'v11': v11, 'oldPc': False,
+                 'content': {'children': children, 'any': any_of(s['wilds'].get('own')), 'inGroupDef': False},
+                 'deriv': base['deriv'] if base else 'none', 'base': bg, 'defaults': None, 'ids': []})
+    built.append(built_group_json(b.group))
+    labels.append('type of e' + (' (%s)' % base['deriv'] if base else ''))
+    for label, bt, ans in zip(labels, built, drv.query(reqs)):
+        ctx.traces += 1
+        ctx.count('build:' + label.split(' (')[0])
+        if 'err' in ans or bt is None or ans['group'] is None or ans['errs']:
+            ctx.mismatch('attribute group construction (driver refused)', dict(case0, group=label), bt, ans)
+            continue
+        m = group_canon(ans['group']['decls'], ans['group']['any'])
+        r = group_canon(bt['decls'], bt['any'])
+        if m != r:
+            if f4 is not None and label == f4 and m['decls'] == r['decls']:
+                ctx.known_hit('C03-F4')         # the shared wildcard of this group was widened in place
+                continue
+            ctx.mismatch('attribute group construction', dict(case0, group=label), r, m)
 
 
 ERR_PATTERNS = [
@@ -551,14 +803,39 @@ def real_run(b: Built, attrs: list, ud: bool, fm: bool) -> dict:
 
 
 NSMAP_DECODE = {p: ns for ns, p in PREFIX.items()}
+NSMAP_DECODE['tt'] = T            # a second prefix of the target namespace (xs:QName values)
+NSMAP['tt'] = T
+CTX = sorted([p, ns] for p, ns in NSMAP_DECODE.items())
 
 
-def model_value(item: list) -> Any:
+def canon_value(v: Any) -> list:
+    """python value handed to the converter -> the canonical form of the driver (`dvJson`)"""
+    if v is None:
+        return ['n']
+    if isinstance(v, bool):
+        return ['b', v]
+    if isinstance(v, int):
+        return ['i', str(v)]
+    if isinstance(v, Decimal):
+        sign, digits, exp = v.as_tuple()
+        if not isinstance(exp, int) or exp > 0:
+            return ['?', repr(v)]
+        return ['d', bool(sign), str(int(''.join(map(str, digits)) or '0')), -exp]
+    if isinstance(v, str):
+        return ['s', v]
+    if isinstance(v, list):
+        return ['l', [None if x is None else str(x) if isinstance(x, int) and not isinstance(x, bool) else repr(x)
+                      for x in v]]
+    return ['?', repr(v)]
+
+
+def model_value(item: list) -> list:
+    """canonical decoded value of a model item"""
     if item[2] == 't':
-        return pyvalue(item[3], item[4]) if item[4] in LEX[item[3]] else ('?lex', item[4])
+        return item[5]
     if item[2] == 'r':
-        return item[3]
-    return None
+        return ['s', item[3]]
+    return ['n']
 
 
 def same_value(a: Any, b: Any) -> bool:
@@ -576,26 +853,34 @@ def load_findings() -> list[dict]:
         return []
 
 
-def known_match(case: dict, detail: dict) -> Optional[str]:
-    """Exact rules of the two recorded findings.
-    C03-F1: the declaration set contains an own `use="prohibited"` declaration AND the real result equals the
-            result of the pinned Lean port (`legacy` model) / of the set reading in which that declaration is a
-            live optional use, while differing from the repaired one.
-    C03-F2: the complexType has a local anyAttribute and a referenced group with a wildcard of a different
-            processContents, and the built wildcard carries the processContents of the first referenced group."""
-    status = {e['id']: e.get('status') for e in load_findings()}
-    if 'glue' in detail:
-        g = detail['glue']
-        if status.get('C03-F2') == 'known' and g['first_group'] is not None \
-                and g['built_processContents'] == g['first_group'] != g['declared_local']:
-            return 'C03-F2'
+def finding_status() -> dict:
+    return {e['id']: e.get('status') for e in load_findings()}
+
+
+def f4_group(s: dict) -> Optional[str]:
+    """C03-F4 applies to: an <extension> of a base type with a wildcard whose own content takes its wildcard
+    from exactly one referenced attribute group and has no local anyAttribute - the group's wildcard object is
+    then the one `union` updates in place.  Returns the name of that group."""
+    base = s.get('base')
+    if not base or base['deriv'] != 'extension' or not base['wild'] or 'own' in s['wilds']:
         return None
-    if detail.get('explained_by') == 'legacy-prohibited' and status.get('C03-F1') == 'known' \
-            and case.get('has_prohibited'):
-        return 'C03-F1'
-    if detail.get('explained_by') == 'first-group-pc' and status.get('C03-F2') == 'known' \
-            and case.get('pc_conflict'):
-        return 'C03-F2'
+    with_w = [g for g in s['refs'] if g in s['wilds']]
+    return with_w[0] if len(with_w) == 1 else None
+
+
+def known_match(case: dict, detail: dict) -> Optional[str]:
+    """Exact rules of the recorded findings that are still open (C03-F1 and C03-F2 are fixed: no rule).
+    C03-F3: an attribute of type xs:QName with a fixed value is present, and the library's verdict and data are
+            exactly those of the reading in which the fixed value of a QName is compared as collapsed text
+            (`spec_eval(qname_lexical=True)`), while the value-space reading disagrees.
+    C03-F4: `f4_group(set)` names the attribute group, and the names the group admits when used alone are
+            exactly those its declared constraint OR the base type's wildcard admits."""
+    status = finding_status()
+    if detail.get('explained_by') == 'qname-lexical' and status.get('C03-F3') == 'known' and case.get('qname_fixed'):
+        return 'C03-F3'
+    if detail.get('explained_by') == 'shared-wildcard-union' and status.get('C03-F4') == 'known' \
+            and case.get('group') is not None and f4_group(case['set']) == case['group']:
+        return 'C03-F4'
     return None
 
 
@@ -626,39 +911,64 @@ def run_set(ctx: Ctx, drv: Optional[Driver], s: dict, v11: bool, tmp: Path, subs
             values: Optional[dict] = None) -> None:
     from xmlschema import XMLSchemaException
     ver = '1.1' if v11 else '1.0'
+    s.setdefault('base', None)
     case0 = {'v': ver, 'set': s}
+    base = s['base']
     try:
         b = Built(s, v11, tmp)
     except XMLSchemaException as e:
+        msg = str(e)
+        if base and base['deriv'] == 'extension' and not v11 and 'not expressible' in msg:
+            # XSD 1.0: the union of the two wildcards is not expressible; the model must refuse it too
+            ctx.count('1.0/extension-union-not-expressible')
+            if drv is not None and base['wild'] and 'own' in s['wilds'] and not [g for g in s['refs'] if g in s['wilds']]:
+                ans = drv.query([{'op': 'build', 'v11': False, 'oldPc': False, 'deriv': 'extension',
+                                  'content': {'children': [], 'any': any_of(s['wilds']['own']), 'inGroupDef': False},
+                                  'base': {'decls': [], 'any': any_of(base['wild'])}, 'defaults': None, 'ids': []}])[0]
+                ctx.traces += 1
+                if ans.get('errs') != ['union']:
+                    ctx.mismatch('extension refused by the library (wildcard union not expressible) but computed '
+                                 'by the model', case0, 'refused', ans)
+            return
+        if base and base['deriv'] == 'restriction':
+            ctx.count(f'{ver}/restriction-refused')       # acceptance of restrictions is property C14
+            return
         ctx.count('schema-refused')
         ctx.failure('generated schema refused by the library', case0, {'error': type(e).__name__,
-                                                                      'message': str(e)[:300]})
+                                                                      'message': msg[:300]})
         return
     it = intended(s)
+    f4 = f4_group(s)
+    f4_hit = None
     # shared attribute groups keep their own wildcard whatever other types combine them with
     for gname in ('AG1', 'AG2'):
         if gname in s['wilds']:
-            alone = b.schema.elements['alone' + gname].type.attributes.get(None)
+            grp = b.schema.elements['alone' + gname].type.attributes
+            alone = grp.get(None)
             c = s['wilds'][gname]['c']
             names_u = [('', 'zz'), (T, 'zz'), (F, 'zz'), (U, 'zz'), ('urn:fresh', 'zz')]
             got = None if alone is None else [bool(alone.is_matching('{%s}%s' % n if n[0] else n[1])) for n in names_u]
             want = [den_q(c, n) for n in names_u]
             if got != want:
+                case_g = dict(case0, group=gname)
+                widened = [den_q(c, n) or den_q(base['wild']['c'], n) for n in names_u] if f4 == gname else None
+                if got == widened and known_match(case_g, {'explained_by': 'shared-wildcard-union'}):
+                    ctx.known_hit('C03-F4')
+                    f4_hit = gname
+                    continue
                 ctx.failure('the wildcard of an attribute group used alone differs from its declared constraint '
-                            '(changed by being combined in another type?)', dict(case0, group=gname),
+                            '(changed by being combined in another type?)', case_g,
                             {'declared': c, 'admits': dict(zip(['absent', 'tns', 'urn:f', 'urn:u', 'fresh'], got or []))})
     g = introspect_group(b)
     if g is None:
         ctx.failure('built group cannot be expressed in the model (type outside the catalogue / malformed '
                     'wildcard)', case0)
         return
-    has_prohibited = any(d['use'] == 'prohibited' for d in g['decls'])
-    pc_conflict = bool(it['wild'] and 'own' in s['wilds'] and it['wild']['pc_first_group'] not in
-                       (None, it['wild']['pc']))
-    case0['has_prohibited'] = has_prohibited
-    case0['pc_conflict'] = pc_conflict
-    glue_known = check_glue(ctx, b, it, g, case0)
+    check_glue(ctx, b, it, g, case0)
+    if drv is not None:
+        check_build(ctx, drv, b, case0, f4_hit)
     ctx.count(f'{ver}/sets')
+    ctx.count(f'{ver}/sets:' + (base['deriv'] if base else 'plain'))
     ctx.count('decls:%d' % len(g['decls']))
     ctx.count('wildcard:' + (g['any']['pc'] if g['any'] else 'none'))
     names = pool(s)
@@ -694,21 +1004,19 @@ def run_set(ctx: Ctx, drv: Optional[Driver], s: dict, v11: bool, tmp: Path, subs
                 attrs[k] = [attrs[k][0], choose_value(ctx.rng, it, tuple(attrs[k][0]))]
             ctx.rng.shuffle(attrs)
             cases.append(attrs)
-    # prohibited + fixed declarations as live optional uses (characterisation of C03-F1 only)
-    live = {tuple(d['n']): {'use': 'optional', 'fixed': d['fixed'], 'default': d['default'], 'ty': d['ty']}
-            for d in g['decls'] if d['use'] == 'prohibited'}
+    has_prohibited = any(d['use'] == 'prohibited' for d in g['decls'])
+    qname_fixed = {n for n, u in it['uses'].items() if u['ty'] == TY_QNAME and u['fixed'] is not None}
     answers = None
     if drv is not None:
         req = {'decls': g['decls'], 'any': g['any'], 'globals': g['globals'], 'loaded': g['loaded'],
-               'cases': cases, 'opts': [list(o) for o in OPTS], 'valid': VALID_TABLE, 'cls': CLS_TABLE,
-               'both': has_prohibited}
+               'cases': cases, 'opts': [list(o) for o in OPTS], 'ctx': CTX}
         answers = drv.query([req])[0]
         if 'err' in answers:
             ctx.mismatch('driver error', case0, None, answers)
             answers = None
     for ci, attrs in enumerate(cases):
-        case = {'v': ver, 'xsd': b.xsd, 'attrs': attrs, 'set': s, 'has_prohibited': has_prohibited,
-                'pc_conflict': pc_conflict}
+        qf = bool(qname_fixed & {tuple(n) for n, _ in attrs})
+        case = {'v': ver, 'xsd': b.xsd, 'attrs': attrs, 'set': s, 'qname_fixed': qf}
         key = {'v': ver, 'group': g['decls'], 'any': g['any'], 'attrs': attrs}
         nontrivial = False
         kinds: set = set()
@@ -717,49 +1025,28 @@ def run_set(ctx: Ctx, drv: Optional[Driver], s: dict, v11: bool, tmp: Path, subs
             case_o = dict(case, use_defaults=ud, fill_missing=fm)
             kinds.update(e[0] for e in real['errors'])
             m = answers['res'][ci][oi] if answers is not None else None
-            # what the library would answer without finding C03-F1: the repaired Lean port's result, used
-            # only when the library's result equals the pinned port's (exact matcher of DESIGN 2.6)
-            without_f1 = None
-            if m is not None and has_prohibited and 'leg' in m and agrees(m['leg'], real) \
-                    and not agrees(m['rep'], real):
-                without_f1 = model_as_real(m['rep'])
             # ---- (3) the property on the real code, from the intended declarations
             sp = spec_eval(it, attrs, ud, fm)
             problems = judge(sp, real)
             if problems:
-                sp2 = None
-                if pc_conflict and b.group._attribute_group[None].process_contents == it['wild']['pc_first_group']:
-                    sp2 = spec_eval(it, attrs, ud, fm, pc_override=it['wild']['pc_first_group'])
-                expl: list = []
-                if sp2 is not None and not judge(sp2, real):
-                    expl = ['first-group-pc']
-                elif without_f1 is not None and not judge(sp, without_f1):
-                    expl = ['legacy-prohibited']
-                elif without_f1 is not None and sp2 is not None and not judge(sp2, without_f1):
-                    expl = ['legacy-prohibited', 'first-group-pc']
-                elif m is None and has_prohibited and not judge(
-                        spec_eval(it, attrs, ud, fm, prohibited_live=live), real):
-                    expl = ['legacy-prohibited']      # Lean unavailable: approximate python reading
-                fids = [known_match(case_o, {'explained_by': x}) for x in expl]
-                if fids and all(fids):
-                    for fid in fids:
-                        ctx.known_hit(fid)
+                fid = None
+                if qf and not judge(spec_eval(it, attrs, ud, fm, qname_lexical=True), real):
+                    fid = known_match(case_o, {'explained_by': 'qname-lexical'})
+                if fid:
+                    ctx.known_hit(fid)
                 else:
                     ctx.failure(problems[0], case_o, {'problems': problems, 'real': real,
                                                        'expected_valid': sp['ok'],
                                                        'expected_decoded': sorted(map(str, sp['out'].items())),
                                                        'expected_absent': sorted(map(str, sp['absent'].items()))})
-            # ---- (2) implementation vs Lean model
+            # ---- (2) implementation vs Lean model (the model is the code as it is)
             if m is not None:
                 ctx.traces += 1
-                if not agrees(m['rep'], real):
-                    if without_f1 is not None and known_match(case_o, {'explained_by': 'legacy-prohibited'}):
-                        ctx.known_hit('C03-F1')
-                    else:
-                        ctx.mismatch('attribute group decode', case_o,
-                                     {'errors': real['errors'],
-                                      'decoded': [[n, repr(v)] for n, v in real['decoded']]}, m['rep'])
-                if m['rep']['decoded'] and any(i[2] != 't' for i in m['rep']['decoded']):
+                if not agrees(m, real):
+                    ctx.mismatch('attribute group decode', case_o,
+                                 {'errors': real['errors'],
+                                  'decoded': [[n, canon_value(v)] for n, v in real['decoded']]}, m)
+                if m['decoded'] and any(i[2] != 't' for i in m['decoded']):
                     nontrivial = True
             if real['errors']:
                 nontrivial = True
@@ -811,20 +1098,237 @@ def judge(sp: dict, real: dict) -> list[str]:
     return problems
 
 
-def model_as_real(m: dict) -> dict:
-    return {'errors': m['errors'], 'decoded': [[item[:2], model_value(item)] for item in m['decoded']],
-            'valid': not m['errors']}
-
-
 def agrees(m: dict, real: dict) -> bool:
     if m['errors'] != real['errors']:
         return False
     if len(m['decoded']) != len(real['decoded']):
         return False
     for item, (n, v) in zip(m['decoded'], real['decoded']):
-        if item[:2] != n or not same_value(model_value(item), v):
+        if item[:2] != n or model_value(item) != canon_value(v):
             return False
     return True
+
+
+# ---------------------------------------------------------------- the catalogue types against the real types
+TYPES_XSD = f'''<xs:schema xmlns:xs="{XSD}" targetNamespace="{T}" xmlns:t="{T}">
+<xs:simpleType name="small"><xs:restriction base="xs:int"><xs:maxInclusive value="5"/></xs:restriction></xs:simpleType>
+<xs:simpleType name="ints"><xs:list itemType="xs:int"/></xs:simpleType>
+%s
+</xs:schema>'''
+ALPHABETS = {0: ' \t+-0123x', 5: ' +-0126x', 1: ' \t+-.0012x', 3: ' \ttruefals01', 2: ' \tab', 4: ' \t\nab', 6: ' a1',
+             7: ' :txfz1-_.', 8: ' \t\n+-012x'}
+
+
+def gen_lex(rng, ty: int) -> str:
+    if rng.random() < 0.35:                                  # a catalogue form, possibly padded
+        lex = rng.choice(CATALOGUE[ty][1])[0]
+        return rng.choice(['', ' ', '\t', '  ']) + lex + rng.choice(['', ' ', '\n']) if rng.random() < 0.4 else lex
+    if ty == TY_QNAME and rng.random() < 0.6:
+        p = rng.choice(['t', 'tt', 'f', 'u', 'zz', 'xsi', '', 't1', '_p', '1p'])
+        loc = rng.choice(['x', 'y', 'a-b', 'a.b', '_', '1x', '', 'x:y', 'x y'])
+        return rng.choice(['', ' ']) + (p + ':' + loc if p or rng.random() < 0.2 else loc) + rng.choice(['', '  '])
+    al = ALPHABETS[ty]
+    return ''.join(rng.choice(al) for _ in range(rng.randrange(0, 7)))
+
+
+def run_types(ctx: Ctx, drv: Optional[Driver]) -> None:
+    """Model/AttrTypes.lean against the real simple types: for every catalogue type, generated lexical forms:
+    (a) lax decode of <e v="lex"/> reports no error  <->  validLex, and the decoded value  <->  decodedVal;
+    (b) `type.text_decode(a) == type.text_decode(b)` (the fixed-value test of XsdAttribute.raw_decode)  <->
+        Sem.valueEq;  (c) the hand-written catalogue table (independent reading) agrees with the real types."""
+    import xmlschema
+    elems = ''.join(f'<xs:element name="e{k}"><xs:complexType><xs:attribute name="v" type="{name}"/>'
+                    f'</xs:complexType></xs:element>' for k, (name, _) in enumerate(CATALOGUE))
+    for v11 in (False, True):
+        cls = xmlschema.XMLSchema11 if v11 else xmlschema.XMLSchema10
+        schema = cls(TYPES_XSD % elems)
+        ver = '1.1' if v11 else '1.0'
+        items, pairs, real_items, real_pairs = [], [], [], []
+        for ty, (name, entries) in enumerate(CATALOGUE):
+            xsd_type = schema.elements[f'e{ty}'].type.attributes['v'].type
+            lexs = [lex for lex, _, _ in entries] + [gen_lex(ctx.rng, ty) for _ in range(ctx.pick(60, 400))]
+            for lex in lexs:
+                el = ET.Element('{%s}e%d' % (T, ty), {'v': lex})
+                data, errs = schema.decode(el, validation='lax', namespaces=NSMAP_DECODE)
+                val = (data or {}).get('@v') if isinstance(data, dict) else None
+                items.append([ty, lex])
+                real_items.append((not errs, canon_value(val)))
+                if lex in LEX[ty]:
+                    ok, pv = LEX[ty][lex][0], pyvalue(ty, lex)
+                    if ok != (not errs) or canon_value(pv) != canon_value(val):
+                        ctx.failure('the hand-written catalogue (independent reading) disagrees with the real type',
+                                    {'v': ver, 'type': name, 'lex': lex}, {'catalogue': [ok, repr(pv)],
+                                                                          'real': [not errs, repr(val)]})
+            for _ in range(ctx.pick(150, 1200)):
+                a, bb = ctx.rng.choice(lexs), ctx.rng.choice(lexs)
+                if ctx.rng.random() < 0.3:
+                    bb = ctx.rng.choice(['', ' ', '\t']) + a + ctx.rng.choice(['', ' '])
+                pairs.append([ty, a, bb])
+                real_pairs.append(bool(xsd_type.text_decode(a) == xsd_type.text_decode(bb)))
+        if drv is None:
+            continue
+        ans = drv.query([{'op': 'types', 'ctx': CTX, 'items': items, 'pairs': pairs}])[0]
+        if 'err' in ans:
+            ctx.mismatch('driver error (types)', {'v': ver}, None, ans)
+            continue
+        for (ty, lex), (rok, rval), mok, mval in zip(items, real_items, ans['valid'], ans['dec']):
+            ctx.traces += 1
+            ctx.count('types:valid' if rok else 'types:invalid')
+            ctx.case({'v': ver, 'type': ty, 'lex': lex}, True, tag=f'{ver}/type-forms')
+            if rok != mok or rval != mval:
+                ctx.mismatch('catalogue type: validity / decoded value', {'v': ver, 'type': CATALOGUE[ty][0], 'lex': lex},
+                             [rok, rval], [mok, mval])
+        for (ty, a, bb), req, meq in zip(pairs, real_pairs, ans['eq']):
+            ctx.traces += 1
+            ctx.count('types:eq' if req else 'types:neq')
+            if req != meq:
+                ctx.mismatch('catalogue type: fixed-value test (text_decode equality)',
+                             {'v': ver, 'type': CATALOGUE[ty][0], 'a': a, 'b': bb}, req, meq)
+
+
+# ---------------------------------------------------------------- XSD 1.0 ID rule, XSD 1.1 default attribute group
+TY_ID, TY_MYID = 9, 10          # outside the value catalogue: only the build rules read them
+
+
+def run_build_extras(ctx: Ctx, drv: Optional[Driver]) -> None:
+    """`AttrDeriv.idErrs` and `AttrDeriv.applyDefaults` against the library: seeded small schemas built in lax mode
+    (parse errors collected); compared: the reported error kinds and the resulting attribute group."""
+    import xmlschema
+    if drv is None:
+        return
+    rng = ctx.rng
+    tyname = {0: 'xs:int', 2: 'xs:string', TY_ID: 'xs:ID', TY_MYID: 't:myid'}
+    for v11 in (False, True):
+        cls = xmlschema.XMLSchema11 if v11 else xmlschema.XMLSchema10
+        ver = '1.1' if v11 else '1.0'
+        for _ in range(ctx.pick(24, 120)):
+            def decl(name: str, tys: list) -> dict:
+                ty = rng.choice(tys)
+                use = rng.choice(['optional', 'optional', 'required'])
+                return {'name': ['', name], 'use': use, 'ty': ty, 'fixed': None,
+                        'default': rng.choice([None, '1']) if use == 'optional' and ty in (0, 2) else None}
+            own = [decl(n, [0, 2, TY_ID, TY_ID, TY_MYID]) for n in ('a', 'b', 'c', 'd') if rng.random() < 0.7]
+            own_w = rng.choice([None, None, {'c': {'ns': [F], 'notNs': [], 'notQ': []}, 'pc': 'lax'}])
+            da = [decl(n, [0, 2, TY_ID]) for n in ('a', 'da1', 'da2') if rng.random() < (0.25 if n == 'a' else 0.7)]
+            da_w = rng.choice([None, None, {'c': {'ns': [U], 'notNs': [], 'notQ': []}, 'pc': 'skip'}])
+            use_da = v11 and rng.random() < 0.6
+            apply_attr = rng.choice(['', '', ' defaultAttributesApply="false"', ' defaultAttributesApply="true"']) if v11 else ''
+
+            def xd(d: dict) -> str:
+                extra = '' if d['use'] == 'optional' else f' use="{d["use"]}"'
+                if d['default'] is not None:
+                    extra += f' default="{d["default"]}"'
+                return f'<xs:attribute name="{d["name"][1]}" type="{tyname[d["ty"]]}"{extra}/>'
+            xsd = (f'<xs:schema xmlns:xs="{XSD}" targetNamespace="{T}" xmlns:t="{T}"'
+                   + (' defaultAttributes="t:DA"' if use_da else '') + '>'
+                   '<xs:simpleType name="myid"><xs:restriction base="xs:ID"><xs:maxLength value="9"/></xs:restriction>'
+                   '</xs:simpleType><xs:attributeGroup name="DA">' + ''.join(map(xd, da))
+                   + (xsd_wild(da_w['c'], da_w['pc']) if da_w else '') + '</xs:attributeGroup>'
+                   f'<xs:element name="e"><xs:complexType{apply_attr}>' + ''.join(map(xd, own))
+                   + (xsd_wild(own_w['c'], own_w['pc']) if own_w else '') + '</xs:complexType></xs:element></xs:schema>')
+            case = {'v': ver, 'xsd': xsd}
+            try:
+                schema = cls(xsd, validation='lax')
+            except Exception as e:      # noqa: BLE001
+                ctx.failure('schema of the ID / defaultAttributes family cannot be built even in lax mode', case,
+                            {'error': type(e).__name__, 'message': str(e)[:200]})
+                continue
+            msgs = [str(getattr(e, 'message', e)) for e in schema.all_errors]
+            real_errs = sorted(('multipleIds' if 'multiple ID attributes' in m else
+                                'defaultWildcardClash' if 'default attribute None' in m else
+                                'defaultClash' if 'default attribute' in m else 'other:' + m[:60]) for m in msgs)
+            applies = v11 and use_da and 'false' not in apply_attr
+            # the 1.0 ID rule is applied to the group of the complex type before the defaults are added and to the
+            # attribute group definition itself; the model is asked for the complex type's group
+            group = schema.elements['e'].type.attributes
+            real = {'decls': {}, 'any': None}
+            for k, a in group._attribute_group.items():
+                if k is None:
+                    real['any'] = intro_wild(a)
+                else:
+                    real['decls'][k] = [a.use, a.fixed, a.default]
+            content = {'children': [{'attr': ast_decl(d)} for d in own], 'any': any_of(own_w), 'inGroupDef': False}
+            dflt = {'decls': [ast_decl(d) for d in da], 'any': any_of(da_w)} if applies else None
+            ans = drv.query([{'op': 'build', 'v11': v11, 'oldPc': False, 'content': content, 'deriv': 'none',
+                              'base': None, 'defaults': dflt, 'ids': [TY_ID, TY_MYID]}])[0]
+            ctx.traces += 1
+            ctx.case(case, True, tag=f'{ver}/build-extras')
+            # errors of the DA definition itself (1.0: multiple IDs inside the group) are not the type's
+            da_ids = sum(1 for d in da if d['ty'] in (TY_ID, TY_MYID))
+            model_errs = sorted(ans.get('errs', []) + (['multipleIds'] if not v11 and da_ids > 1 else []))
+            from harness.props.c16 import canon
+            mg = ans.get('group')
+            model = None if mg is None else {
+                'decls': {d['n'][1]: [d['use'], d['fixed'], d['default']] for d in mg['decls']},
+                'any': mg['any']}
+            realc = {'decls': real['decls'], 'any': None if real['any'] is None else
+                     {'wc': canon(real['any']['wc']), 'pc': real['any']['pc']}}
+            for e in real_errs:
+                ctx.count('build-extras:' + e.split(':')[0])
+            if model_errs != real_errs or model != realc:
+                ctx.mismatch('ID rule / default attribute group', case, {'errs': real_errs, 'group': realc},
+                             {'errs': model_errs, 'group': model})
+
+
+# ---------------------------------------------------------------- witnesses of the `_counterexample` theorems
+def witnesses(ctx: Ctx) -> None:
+    """The concrete witnesses of the Lean `_counterexample` theorems replayed on the real code.
+    Fixed findings (C03-F1, C03-F2): the code must now give the verdict of the CURRENT step of the model, else
+    a failure.  Open findings (C03-F3, C03-F4): the defect is re-confirmed (KNOWN-FINDING) while it is there."""
+    import xmlschema
+    head = f'<xs:schema xmlns:xs="{XSD}" targetNamespace="{T}" xmlns:t="{T}">'
+
+    def errs(schema: Any, xml: str) -> list:
+        return [e.reason for e in schema.iter_errors(xml)]
+
+    for cls in (xmlschema.XMLSchema10, xmlschema.XMLSchema11):
+        v = cls.XSD_VERSION
+        # Props.C03.oldstep_admits_counterexample / oldstep_injects_counterexample  (XSD 1.0 only: 1.1 forbids the schema)
+        if v == '1.0':
+            sc = cls(head + '<xs:element name="e"><xs:complexType><xs:attribute name="a" type="xs:int" '
+                     'use="prohibited" fixed="3"/></xs:complexType></xs:element></xs:schema>')
+            ctx.case({'witness': 'oldstep', 'v': v}, True, tag='witness')
+            if not errs(sc, f'<t:e xmlns:t="{T}" a="3"/>'):
+                ctx.failure('witness of oldstep_admits_counterexample: a prohibited attribute with a fixed value is '
+                            'accepted again (C03-F1 is recorded as fixed)', {'witness': 'oldstep-admits', 'v': v})
+            if sc.decode(f'<t:e xmlns:t="{T}"/>') not in (None, {f'@xmlns:t': T}):
+                ctx.failure('witness of oldstep_injects_counterexample: the fixed value of a prohibited declaration is '
+                            'injected again (C03-F1 is recorded as fixed)', {'witness': 'oldstep-injects', 'v': v})
+        # Props.C03Deriv.oldpc_counterexample
+        sc = cls(head + '<xs:attributeGroup name="AG1"><xs:anyAttribute namespace="##any" processContents="skip"/>'
+                 '</xs:attributeGroup><xs:element name="e"><xs:complexType><xs:attributeGroup ref="t:AG1"/>'
+                 f'<xs:anyAttribute namespace="{U}" processContents="strict"/></xs:complexType></xs:element></xs:schema>')
+        ctx.case({'witness': 'oldpc', 'v': v}, True, tag='witness')
+        if not errs(sc, f'<t:e xmlns:t="{T}" xmlns:u="{U}" u:z="1"/>'):
+            ctx.failure('witness of oldpc_counterexample: the complete wildcard takes the processContents of the first '
+                        'referenced group again (C03-F2 is recorded as fixed)', {'witness': 'oldpc', 'v': v})
+        # Props.C03Types.fixed_qname_rejects_counterexample / fixed_qname_admits_counterexample
+        sc = cls(head + '<xs:element name="e"><xs:complexType><xs:attribute name="q" type="xs:QName" fixed="t:x"/>'
+                 '</xs:complexType></xs:element></xs:schema>')
+        ctx.case({'witness': 'qname-fixed', 'v': v}, True, tag='witness')
+        rejects = bool(errs(sc, f'<p:e xmlns:p="{T}" q="p:x"/>'))
+        admits_ = not errs(sc, f'<p:e xmlns:p="{T}" xmlns:t="urn:other" q="t:x"/>')
+        if rejects or admits_:
+            if finding_status().get('C03-F3') == 'known' and rejects and admits_:
+                ctx.known_hit('C03-F3')
+            else:
+                ctx.failure('the fixed value of an xs:QName attribute is not compared in the value space',
+                            {'witness': 'qname-fixed', 'v': v}, {'same value rejected': rejects,
+                                                                 'different value accepted': admits_})
+        # C03-F4: the wildcard of a shared attribute group widened by an extension
+        sc = cls(head + f'<xs:attributeGroup name="AG"><xs:anyAttribute namespace="{U}" processContents="skip"/>'
+                 f'</xs:attributeGroup><xs:complexType name="B"><xs:anyAttribute namespace="{F}" processContents="skip"/>'
+                 '</xs:complexType><xs:complexType name="D"><xs:complexContent><xs:extension base="t:B">'
+                 '<xs:attributeGroup ref="t:AG"/></xs:extension></xs:complexContent></xs:complexType>'
+                 '<xs:element name="alone"><xs:complexType><xs:attributeGroup ref="t:AG"/></xs:complexType></xs:element>'
+                 '</xs:schema>')
+        ctx.case({'witness': 'shared-wildcard', 'v': v}, True, tag='witness')
+        if not errs(sc, f'<t:alone xmlns:t="{T}" xmlns:f="{F}" f:x="1"/>'):
+            if finding_status().get('C03-F4') == 'known':
+                ctx.known_hit('C03-F4')
+            else:
+                ctx.failure('an extension widened the wildcard of a shared attribute group',
+                            {'witness': 'shared-wildcard', 'v': v})
 
 
 # ---------------------------------------------------------------- entry points
@@ -849,10 +1353,16 @@ def run(ctx: Ctx, driver_ok: bool) -> None:
         if not any(k['id'] == e['id'] for k in ctx.known):
             ctx.known.append(e)          # core only reads /verif/known_findings.json (integrator merges later)
     drv = Driver('drv_c03') if driver_ok else None
+    for extra in ('XsVerif.Props.C03Types', 'XsVerif.Props.C03Deriv'):
+        ctx.lean_grep(extra)
+    run_types(ctx, drv)
+    run_build_extras(ctx, drv)
+    witnesses(ctx)
     explore(ctx, drv, ctx.pick(60, 600))
     ctx.extra['exhaustive'] = False
-    ctx.extra['explanation'] = ('declaration sets are seeded random; for each set the subset dimension (256 '
-                                'subsets of the 8-name pool) is exhaustive, values are drawn from the catalogue')
+    ctx.extra['explanation'] = ('declaration sets (plain / extension / restriction) are seeded random; for each set the '
+                                'subset dimension (256 subsets of the 8-name pool) is exhaustive, values are drawn from '
+                                'the catalogue; lexical forms of the type correspondence are seeded random')
 
 
 def search(ctx: Ctx) -> None:
@@ -863,6 +1373,14 @@ def search(ctx: Ctx) -> None:
 def replay(ctx: Ctx, obj: dict) -> int:
     print(json.dumps({k: v for k, v in obj.items() if k != 'input'}, indent=1)[:3000])
     case = obj.get('input')
+    if case and 'witness' in case:
+        for e in load_findings():
+            ctx.known.append(e)
+        witnesses(ctx)
+        for f in ctx.failures:
+            print('FAILS ON THE REAL CODE:', f['what'], json.dumps(f['detail'], default=str)[:1500])
+        print('judgement:', 'property violated' if ctx.failures else 'property holds on this input')
+        return 1 if ctx.failures else 0
     if not case or 'set' not in case:
         return 0
     tmp = Path(tempfile.mkdtemp(prefix='verif-c03-'))
